@@ -1,6 +1,6 @@
 // h-ca: executor/recorder for the Connect CA property (C12), spec/CA.tla.
 //
-//	h-ca replay -profile issue|roots -in behaviours.json -out trace.ndjson
+//	h-ca replay -profile issue|roots [-initops K] -in behaviours.json -out trace.ndjson
 //	h-ca random -profile issue|roots -seed S -n N -len L -out trace.ndjson
 //
 // profile issue: a real CAManager (built-in provider) over a real state.Store; commands
@@ -50,15 +50,24 @@ func fatal(f string, a ...any) {
 	os.Exit(2)
 }
 
+// initOps: the CA commands replicated by CAManager.Initialize are identical in every history; they are
+// recorded for every initOps-th history only (1 = all), everything after initialisation always is.
+var initOps = 1
+
 func newWorld(profile string, rec *recorder, beh int) *cah.World {
 	emit := func(ev M) { ev["beh"] = beh; rec.emit(ev) }
 	if profile == "roots" {
 		return cah.NewRoots(emit)
 	}
-	w, err := cah.NewIssue(emit)
+	initEmit := emit
+	if beh%initOps != 0 {
+		initEmit = nil
+	}
+	w, err := cah.NewIssue(initEmit)
 	if err != nil {
 		fatal("CAManager.Initialize: %v", err)
 	}
+	w.Emit = emit
 	return w
 }
 
@@ -232,6 +241,17 @@ func (g *gen) shape() M {
 	case "signing":
 		s["raw"] = "spiffe://" + host
 	}
+	// spellings that leave host and path alone: user-info, query, fragment
+	if kind != "signing" {
+		switch r.Intn(12) {
+		case 0:
+			s["raw"] = strings.Replace(s["raw"].(string), "spiffe://", "spiffe://user@", 1)
+		case 1:
+			s["raw"] = s["raw"].(string) + "?x=1"
+		case 2:
+			s["raw"] = s["raw"].(string) + "#frag"
+		}
+	}
 	return s
 }
 
@@ -278,7 +298,9 @@ func (g *gen) authz(uris []any) ([]any, []any) {
 			add(&reads, needed(s)) // read is not write
 		case 7:
 			n := needed(s)
-			n["var"] = g.pick([]string{"exact", "upper", "slash"})
+			if n["res"] == "service" || n["res"] == "node" {
+				n["var"] = g.pick([]string{"exact", "upper", "slash"})
+			}
 			add(&grants, n)
 		}
 	}
@@ -427,7 +449,11 @@ func main() {
 	n := fs.Int("n", 10, "number of random histories")
 	length := fs.Int("len", 100, "length of each history")
 	profile := fs.String("profile", "issue", "issue|roots")
+	fs.IntVar(&initOps, "initops", 1, "record the manager's initialisation commands for every n-th history only")
 	_ = fs.Parse(os.Args[2:])
+	if initOps < 1 {
+		initOps = 1
+	}
 	switch os.Args[1] {
 	case "replay":
 		replay(*profile, *in, *out)
